@@ -62,6 +62,9 @@ func allTags(c *Contract) []string {
 	if c.MapInv != nil {
 		add(c.MapInv.Tags)
 	}
+	for _, ac := range c.AtCalls {
+		add(ac.Tags)
+	}
 	for _, cl := range c.Requires {
 		add(cl.Tags)
 	}
@@ -86,11 +89,11 @@ func allTags(c *Contract) []string {
 }
 
 type funcRun struct {
-	key   string
-	x     *Exec
-	err   error
-	obls  []*Obligation
-	genS  float64
+	key  string
+	x    *Exec
+	err  error
+	obls []*Obligation
+	genS float64
 }
 
 type checkReport struct {
@@ -131,6 +134,34 @@ func targetsFor(ld *Loaded, specs *Specs, prop string) []*funcRun {
 		}
 	}
 	return out
+}
+
+// scenarioMatch: the key is a prefix of the obligation name; '%' in the key
+// stands for any run of characters (ordinals that move when code is edited).
+func scenarioMatch(name, key string) bool {
+	parts := strings.Split(key, "%")
+	if !strings.HasPrefix(name, parts[0]) {
+		return false
+	}
+	rest := name[len(parts[0]):]
+	for _, p := range parts[1:] {
+		i := strings.Index(rest, p)
+		if i < 0 {
+			return false
+		}
+		rest = rest[i+len(p):]
+	}
+	return true
+}
+
+// findingMatch: a known finding names its obligation exactly, except that '%'
+// stands for a call ordinal that moves when unrelated code is edited.
+func findingMatch(name, key string) bool {
+	if !strings.Contains(key, "%") {
+		return name == key
+	}
+	parts := strings.Split(key, "%")
+	return scenarioMatch(name, key) && strings.HasSuffix(name, parts[len(parts)-1])
 }
 
 func cmdCheck(args []string) int {
@@ -356,7 +387,7 @@ func cmdCheck(args []string) int {
 		var kf *Finding
 		for i := range findings.Findings {
 			f := &findings.Findings[i]
-			if f.Property == *prop && f.Obligation == o.Name && f.Status == "open" {
+			if f.Property == *prop && findingMatch(o.Name, f.Obligation) && f.Status == "open" {
 				kf = f
 			}
 		}
@@ -365,7 +396,7 @@ func cmdCheck(args []string) int {
 		scenario := ""
 		if theCatalogue != nil {
 			for pre, f := range theCatalogue.Scenarios {
-				if strings.HasPrefix(o.Name, pre) {
+				if scenarioMatch(o.Name, pre) {
 					scenario = f
 				}
 			}
